@@ -48,3 +48,53 @@ func TestShapeCensus(t *testing.T) {
 	})
 	t.Logf("packages: %d, with shape: %v", n, counts)
 }
+
+func TestC08Census(t *testing.T) {
+	if os.Getenv("VERIF_CENSUS") == "" {
+		t.Skip()
+	}
+	n, sw, opt := 0, 0, 0
+	rapid.Check(t, func(rt *rapid.T) {
+		c := genC08(rt)
+		n++
+		for _, h := range c.Hostile {
+			if len(h) > 6 && h[:6] == "swvar:" {
+				sw++
+				break
+			}
+		}
+		if c.Pkg != nil {
+			for _, d := range c.Pkg.Defs {
+				for _, f := range d.Fields {
+					if d.Kind == model.DRecord && f.Type.Kind == model.KOptional && f.Type.Elem.Kind == model.KPrim {
+						opt++
+						return
+					}
+				}
+			}
+		}
+	})
+	t.Logf("cases %d, with hostile switch var %d, with an optional-of-primitive record field %d", n, sw, opt)
+}
+
+func TestC08SwDump(t *testing.T) {
+	if os.Getenv("VERIF_CENSUS") == "" {
+		t.Skip()
+	}
+	done := false
+	rapid.Check(t, func(rt *rapid.T) {
+		c := genC08(rt)
+		if done {
+			return
+		}
+		for _, h := range c.Hostile {
+			if len(h) > 6 && h[:6] == "swvar:" && c.Pkg != nil {
+				done = true
+				t.Logf("%v\n%s", c.Hostile, model.EmitLayout(c.Pkg, model.EmitOptions{Order: c.Order})["main"].Text())
+				f := checkC08(c)
+				t.Logf("check: %v", f)
+				return
+			}
+		}
+	})
+}
